@@ -22,7 +22,7 @@ import subprocess
 import vlib
 
 SIZES = dict(
-    quick=dict(procs=4, traces=4, ops=8, race_traces=1, race_ops=40, hammer='3s'),
+    quick=dict(procs=4, traces=4, ops=9, race_traces=1, race_ops=40, hammer='3s'),
     thorough=dict(procs=8, traces=50, ops=9, race_traces=4, race_ops=300, hammer='10s'),
 )
 
